@@ -1,3 +1,4 @@
+import AmVerif.Gen.Skel
 import AmVerif.Lemmas.TopoGraph
 import AmVerif.Lemmas.Converge
 import AmVerif.Lemmas.Settle
@@ -1041,5 +1042,10 @@ example : GraphOK (Graph.insertAsset [] (.asset ⟨0, "a"⟩) [.file "a" "s"]) :
 crate's `Condvar::wait_while`, which re-checks the token after every wake-up in both lock implementations (one condition
 variable is shared by all callers and woken with `notify_all`). -/
 theorem C05_wait_while_rechecks : waitWhileRechecksStd = true ∧ waitWhileRechecksParkingLot = true := by decide
+
+/-- Every successful load registers its dependency set with the reloader, empty or not (`HotReloader::add_asset` sends
+unconditionally): a key loaded again after a removal gets its OLD dependencies replaced. -/
+theorem C05_add_asset_always_sends :
+    AmVerif.Gen.skel_hot_reloading_mod_HotReloader_add_asset = [.call .s_AddAsset, .call .s_send] := rfl
 
 end AmVerif.Props.C05
